@@ -63,6 +63,7 @@ def check(ctx):
     shared.join_rules(ctx)
     shared.worker_queue_confinement(ctx)
     shared.global_handoff(ctx)
+    shared.coroutine_linearity_rules(ctx)
     shared.queue_commit_rules(ctx)
     if ctx.cfg == "default":
         witness.run_witness(ctx, "c01_spawn", ctx.prog.extract_info["target"])
